@@ -12,8 +12,8 @@ MANIFEST = {
     "text": "PARTIAL. Proved in Lean for every signature (any length, varargs or not) over the convention's type domain: the model of "
             "FuncDetail::init yields exactly the locations, stack-area size, callee-pop flag, red / shadow zone, stack alignment and preserved "
             "sets that the ABI rules prescribe for SysV x86-64, Win64, AAPCS64 and Apple arm64 (detail_matches_abi_sysv/_win64/_a64, "
-            "ret_matches_abi); the 32-bit x86 conventions have rules and a monitor but no theorem; light-call and x64 vectorcall model + "
-            "correspondence only. Argument shuffle: Model/ArgShuffle.lean is an executable model of init_work_data, WorkData, the three phases "
+            "ret_matches_abi) and for 32-bit cdecl/stdcall/fastcall/thiscall/regparm (detail_matches_abi_x32; 64-bit integers only where the "
+            "convention has no integer registers); light-call and x64 vectorcall model + correspondence only. Argument shuffle: Model/ArgShuffle.lean is an executable model of init_work_data, WorkData, the three phases "
             "of emit_args_assignment and of emit_arg_move/emit_reg_move/emit_reg_swap (x86 and a64) that reproduces the real Builder output "
             "instruction for instruction on every generated line. Proved: the x86 integer move selection extends as the types require for all "
             "type pairs (x86_int_arg_move_extends), AArch64 loads likewise outside two excluded classes; the register phase at schedule "
@@ -22,14 +22,16 @@ MANIFEST = {
             "of register arguments and every injective destination assignment, ok => every destination holds its variable in destination "
             "form, under hypotheses that exclude exactly K3 (widening variable in an exchanged pair) and K5 (selection that does not extend); "
             "K4 is outside the invariant; init_work_data is proved to establish the invariant (initWorkData_wf), giving shuffle_correct_regs: for "
-            "every register-only assignment, emitArgsAssignment ok => judge(run prog (setup ..)) = true. NOT proved: phases 1/3 (stack "
+            "every register-only assignment, emitArgsAssignment ok => judge(run prog (setup ..)) = true; the selection hypothesis is discharged for "
+            "x86 integer variables and all register ids (x86_int_hyp_all_ids); every register-only initial context of the sweep is checked "
+            "at run time against an executable mirror of the invariant (wf0). NOT proved: phases 1/3 (stack "
             "sources/destinations) and the SA variable; "
             "the full-strength shuffle_correct is shown false at the K3/K4/K5 witnesses. Every schedule the real code emits is additionally "
             "judged by the abstract machine of Spec/Machine.lean (monitor = testing).",
     "note": "Model follows the code with fixes C06-1..6 (in /repo) and fixes/C06-7 (float<->double conversions inverted; until applied the "
             "check reports exactly that violation). Trusted: Lean kernel; Spec/ABI.lean and Spec/Machine.lean as the meaning of the ABIs / of "
             "the mov family; the FuncFrame facts (dirty/preserved masks, SA register/offsets) are inputs taken from the real frame (C07); the "
-            "harness/driver diff. Open findings C06-K1..K5. Not claimed: x87 long double, mmx on 32-bit, call-site marshalling inside the "
+            "harness/driver diff. Open findings C06-K1..K7. Not claimed: x87 long double, mmx on 32-bit, call-site marshalling inside the "
             "register allocator (C05), shuffle_correct as a theorem, byte overlap of stack slots (movaps stores 16 bytes for a float).",
 }
 MODS = ["AsmjitVerif.Props.C06"]
